@@ -34,6 +34,13 @@ Theorem spf_change_matches_statement : forall (A : Type) (dflt : A) o n nf (chun
   nth (q * n + j) (spf_convert_chunk dflt o n chunk) dflt = spf_spec_sample dflt o n chunk q j.
 Proof. exact @spf_convert_matches_spec. Qed.
 
+(* the copy loop of _GD_Change over a whole file of complete frames, for every buffer size, sample size and pair of
+   rates -- also when one frame is larger than the buffer (the pass size is the one the source has: Gen/ChangeLoop.v) *)
+Theorem spf_change_loop_matches_statement : forall (A : Type) (dflt : A) buf size o n nfr (file : list A) q j,
+  0 < o -> 0 < n -> length file = nfr * o -> q < nfr -> j < n ->
+  nth (q * n + j) (change_file dflt (frames_per_pass_cur buf size o n) o n file) dflt = spf_spec_sample dflt o n file q j.
+Proof. exact @change_file_current_matches_spec. Qed.
+
 (* ---- the per-fragment drivers (_GD_RecodeFragment, _GD_ByteSwapFragment, _GD_ShiftFragment), lifted
    over the list of fields of a database; `fail` is an arbitrary I/O failure of _GD_MogrifyFile ---- *)
 Theorem fragment_driver_all_or_nothing : forall h ns fail g new d,
